@@ -74,6 +74,60 @@ def unquote(text):
     return s.replace('\\n', '\n').replace('\\t', '\t').replace('\\"', '"').replace('\\\\', '\\').replace("\\'", "'").replace('{{', '{').replace('}}', '}') if False else s.replace('\\n', '\n').replace('\\t', '\t').replace('\\"', '"').replace('\\\\', '\\').replace("\\'", "'")
 
 
+def fmt_pieces(a):
+    """Pieces written by a `fmt::Arguments` value: str literals and ('arg', value) for displayed values.  A displayed
+    string constant is a literal, a displayed nested `format_args!` is inlined (`write!(f, "{close}")` with close = ")"
+    writes the literal `)`), adjacent literals are joined.  None when the value is not a decodable Arguments."""
+    while isinstance(a, tuple) and a and a[0] == 'call' and a[1].split('::')[-1] in ('deref', 'borrow') and a[2]:
+        a = a[2][0]
+    if not (isinstance(a, tuple) and a and a[0] == 'call'):
+        return None
+    c = a[1]
+    out = []
+    if c.endswith('fmt::Arguments::from_str') or c.endswith('fmt::Arguments::from_str_nonconst') or c.endswith('Arguments.from_str'):
+        if a[2] and a[2][0][0] == 'const':
+            sv_ = unquote(a[2][0][1])
+            if sv_ is not None:
+                return [sv_]
+        return [('arg', a[2][0])] if a[2] else None
+    if not (c.endswith('fmt::Arguments::new') or c.endswith('Arguments.new')) or not a[2] or a[2][0][0] != 'const':
+        return None
+    d = decode_template(a[2][0][1])
+    if d is None:
+        return None
+    args = []
+    if len(a[2]) > 1 and isinstance(a[2][1], tuple) and a[2][1][0] == 'agg':
+        args = list(a[2][1][2])
+    k = 0
+    for piece in d:
+        if piece is not None:
+            out.append(piece)
+            continue
+        v = args[k] if k < len(args) else None
+        k += 1
+        inner = v[2][0] if (isinstance(v, tuple) and v and v[0] == 'call' and v[1].split('::')[-1].split('.')[-1] in ('new_display', 'new_debug') and v[2]) else None
+        if inner is None:
+            out.append(('arg', v))
+            continue
+        while isinstance(inner, tuple) and inner and inner[0] == 'call' and inner[1].split('::')[-1] in ('deref', 'borrow') and inner[2]:
+            inner = inner[2][0]
+        if isinstance(inner, tuple) and inner[0] == 'const' and unquote(inner[1]) is not None and v[1].split('::')[-1].split('.')[-1] == 'new_display':
+            out.append(unquote(inner[1]))
+            continue
+        nested = fmt_pieces(inner)
+        if nested is not None and v[1].split('::')[-1].split('.')[-1] == 'new_display':
+            out.extend(nested)
+            continue
+        out.append(('arg', inner))
+    merged = []
+    for x in out:
+        if isinstance(x, str) and merged and isinstance(merged[-1], str):
+            merged[-1] += x
+        else:
+            merged.append(x)
+    return merged
+
+
 def path_pieces(p):
     """Ordered literal pieces (None = a `{}` argument) written on one explored path."""
     out = []
@@ -83,14 +137,10 @@ def path_pieces(p):
             s = unquote(e[2][1][1])
             if s is not None:
                 out.append(s)
-        elif (c.endswith('fmt::Arguments::from_str') or c.endswith('fmt::Arguments::from_str_nonconst')) and e[2] and e[2][0][0] == 'const':
-            s = unquote(e[2][0][1])
-            if s is not None:
-                out.append(s)
-        elif c.endswith('fmt::Arguments::new') and e[2] and e[2][0][0] == 'const':
-            d = decode_template(e[2][0][1])
+        elif c.endswith('Formatter::write_fmt') and len(e[2]) > 1:
+            d = fmt_pieces(e[2][1])
             if d is not None:
-                out.extend(d)
+                out.extend(x if isinstance(x, str) else None for x in d)
     return out
 
 
